@@ -25,7 +25,7 @@ TNew == /\ Ev.ev = "new"
 Skip == Ev.ev # "new" /\ dead /\ UNCHANGED <<pvars, dead, bad>>
 
 \* obligations on the state after the event, in the order in which they are reported
-Oblig == IF Ev.ret < 0 THEN "panic"
+Oblig == IF Ev.ret < 0 THEN (IF Ev.ret = 0 - 2 THEN "hang" ELSE "panic")
          ELSE IF ~ReplyOK' THEN (IF Ev.k \notin valid THEN "invalid-key-accepted"
                                  ELSE IF Ev.ret = 1 THEN "add-beyond-capacity" ELSE "add-refused")
          ELSE IF ToSet(Ev.ex) # S' THEN
